@@ -21,7 +21,8 @@ TWO_PI = 2 * math.pi
 
 def shared_functions():
     from xfab import tools, laue
-    f = lambda m: {n for n, o in vars(m).items() if inspect.isfunction(o) and o.__module__ == m.__name__}
+    # the API: public functions and `_arctan2` (harness/gen_c14.py PRIVATE_OWN); other private helpers are reached through their callers
+    f = lambda m: {n for n, o in vars(m).items() if inspect.isfunction(o) and o.__module__ == m.__name__ and (not n.startswith('_') or n == '_arctan2')}
     return sorted(f(tools) & f(laue)), sorted(f(tools) - f(laue)), sorted(f(laue) - f(tools))
 
 
@@ -271,7 +272,9 @@ def oracle(ctx, hints=()):
         ev += ctx.n(8, 120, boost=40)
     finally:
         xfab.CHECKS.activated = True
-    missing = [f for f in shared if f not in covered]
+    # private helpers (leading underscore) that the harness does not call itself are exercised through the public functions
+    # that use them (a refactor may split such helpers off at any time); every public shared function must be called directly
+    missing = [f for f in shared if f not in covered and not f.startswith('_')]
     for f in missing:
         viol.append({'fn': f, 'input': None, 'observed': 'shared function not exercised by the harness', 'expected': 'covered', 'known_id': None})
     seen_known = False
